@@ -112,3 +112,20 @@ class AltT:
 
     def run(self):
         return 'alt'
+
+
+# --- C09: a task whose re-run can produce a result that fails to pickle part-way through the save
+OVERWRITE_FAIL = set()   # cache keys whose next run returns such a result
+RUNS = [0]               # number of run() executions in this process
+
+
+@labtech.task
+class Flaky:
+    p: Any
+
+    def run(self):
+        RUNS[0] += 1
+        if self.cache_key in OVERWRITE_FAIL:
+            # a large picklable frame first, then something pickle rejects
+            return ['x' * 300000, RUNS[0], (lambda: 0)]
+        return ['flaky', RUNS[0]]
